@@ -58,10 +58,15 @@ def exempt : List (Nat × Nat × Nat) :=
     kf.2.flatMap fun f =>
       (f.2.2.filter fun t => exemptRule (kindName kf.1) f.2.1 (kindName t)).map fun t => (kf.1, f.1, t)
 
-/-- Obl(G): the regenerated tables cover every pointer-bearing field (up to the exempt set). -/
-theorem schema_covers : genSchema.blackenCovers kinds genFields exempt = true := by decide +kernel
+/-- Obl(G): the regenerated tables cover every pointer-bearing field (up to the exempt set) — in the `blacken()` bodies
+or in the `mark()` bodies.  Either one suffices for safety (`collect_safe_either`): with full mark coverage phase 1 already
+greys everything reachable and the passes turn every grey box black; with full blacken coverage phase 2 reaches everything.
+A table that satisfies neither has a pointer field that NO phase traces. -/
+theorem schema_covers :
+    genSchema.blackenCovers kinds genFields exempt = true ∨ genSchema.markCovers kinds genFields exempt = true := by
+  decide +kernel
 
-/-- Obl(G): `mark()` bodies only mark, `blacken()` bodies only blacken. -/
+/-- Obl(G): `mark()` bodies only mark, `blacken()` bodies only blacken (termination shape). -/
 theorem schema_wellFormed : genSchema.wellFormed kinds = true := by decide +kernel
 
 #print axioms schema_covers
@@ -72,14 +77,18 @@ theorem exempt_named : ∀ e ∈ exempt, exemptRule (kindName e.1) ((lookupK Gen
     (kindName e.2.2) = true := by decide +kernel
 
 /-- HEADLINE: on every heap that is well-typed for the regenerated field table and whose exempt pointers point at
-rooted objects, one collection with enough fuel terminates and retains exactly the objects reachable from a rooted one
-along all pointers. -/
+rooted objects, one collection with enough fuel terminates and retains every object reachable from a rooted one along
+ALL pointers (and, by `collect_complete`, only reachable ones). -/
 theorem c01_collect_safe (h : RawHeap) (hty : WellTyped kinds genFields h) (hex : ExemptRooted exempt h) :
     ∃ r, collect (fuelBound (label genSchema h)) (label genSchema h) = some r ∧
-      ∀ i, i ∈ r.retained ↔ Reach (label genSchema h) i := by
-  have hcov : Covered (label genSchema h) := label_covered schema_covers hty hex
+      (∀ i, Reach (label genSchema h) i → i ∈ r.retained) ∧
+      (∀ i ∈ r.retained, Reach (label genSchema h) i) := by
   obtain ⟨r, hr⟩ := label_terminates schema_wellFormed hty (Nat.le_refl _)
-  exact ⟨r, hr, collect_exact hr hcov⟩
+  have hcov : Covered (label genSchema h) ∨ MarkCovered (label genSchema h) := by
+    rcases schema_covers with hb | hm
+    · exact Or.inl (label_covered hb hty hex)
+    · exact Or.inr (label_mark_covered hm hty hex)
+  exact ⟨r, hr, collect_safe_either hr hcov, fun i hi => (collect_complete hr i hi).2⟩
 
 #print axioms c01_collect_safe
 
